@@ -86,16 +86,21 @@ theorem kindAt_append (u e : Bytes) (p : Nat) (h : p < u.length) : kindAt (u ++ 
 /-- One call.  Either the reader faulted: the call returns the I/O error, the two decoders are still at the same
 point, and the reader has strictly fewer events left; or the call returns exactly what the whole-slice decoder
 returns, and the two decoders are again at the same point. -/
-theorem readToken_sim (o : VOpts) (s : SState) (ws : WState) (h : Sim s ws) :
-    ((readToken o s).1 = .fault ∧ Sim (readToken o s).2 ws ∧ (readToken o s).2.events.length < s.events.length) ∨
-    ((readToken o s).1 = (wholeRead o ws).1 ∧ Sim (readToken o s).2 (wholeRead o ws).2 ∧
-      (readToken o s).2.events.length ≤ s.events.length) := by
+theorem readWith_sim (lex : TState → Bytes → Nat → List Event → Bool → SRes) (lexW : TState → Nat → Bytes → TRes)
+    (span : UInt8 → Bool)
+    (hlex : ∀ (st : TState) (u : Bytes) (pos : Nat) (es : List Event) (f : Bool) (c : UInt8) (vt : Bytes),
+      u.drop pos = c :: vt → LexOk u pos es (lexW st pos ((c :: vt) ++ avail es)) (lex st u pos es f))
+    (s : SState) (ws : WState) (h : Sim s ws) :
+    ((readWith lex span s).1 = .fault ∧ Sim (readWith lex span s).2 ws ∧
+      (readWith lex span s).2.events.length < s.events.length) ∨
+    ((readWith lex span s).1 = (wholeReadWith lexW ws).1 ∧ Sim (readWith lex span s).2 (wholeReadWith lexW ws).2 ∧
+      (readWith lex span s).2.events.length ≤ s.events.length) := by
   obtain ⟨h1, h2, h3, h4, h5, h6⟩ := h
   obtain ⟨i1, i2, i3, i4, i5⟩ := invalidate_facts s.w h1 h2
-  have hscan := scanToken_ok o s.st (Window.invalidate s.w).unread s.events
-  unfold readToken
+  have hscan := scanWith_ok s.st (lex s.st) (lexW s.st) (hlex s.st) (Window.invalidate s.w).unread s.events
+  unfold readWith
   simp only
-  cases hs : scanToken o s.st (Window.invalidate s.w).unread s.events with
+  cases hs : scanWith s.st (lex s.st) (Window.invalidate s.w).unread s.events with
   | fault u' es' =>
     rw [hs] at hscan
     obtain ⟨g1, g2, g3⟩ := hscan
@@ -121,65 +126,79 @@ theorem readToken_sim (o : VOpts) (s : SState) (ws : WState) (h : Sim s ws) :
     cases r with
     | err off e =>
       simp only
-      have hw : TokenLoop.readToken o ws.st ws.r = .err off e := by rw [h4, hr]; exact g0.symm
+      have hw : wholeWith ws.st (lexW ws.st) ws.r = .err off e := by rw [h4, hr]; exact g0.symm
       refine ⟨?_, ⟨c4, c5, c3, ?_, ?_, ?_⟩, g2⟩
-      · simp only [wholeRead, hw]; rw [hoff]
-      · simp only [wholeRead, hw]; exact h4
-      · simp only [wholeRead, hw]; rw [c1, hr]; exact g1.symm
-      · simp only [wholeRead, hw]; exact hoff
+      · simp only [wholeReadWith, hw]; rw [hoff]
+      · simp only [wholeReadWith, hw]; exact h4
+      · simp only [wholeReadWith, hw]; rw [c1, hr]; exact g1.symm
+      · simp only [wholeReadWith, hw]; exact hoff
     | tok n st' =>
       simp only
       obtain ⟨t1, t2, t3, t4⟩ := g4 n st' rfl
-      have hw : TokenLoop.readToken o ws.st ws.r = .tok n st' := by rw [h4, hr]; exact g0.symm
+      have hw : wholeWith ws.st (lexW ws.st) ws.r = .tok n st' := by rw [h4, hr]; exact g0.symm
       have hbuf : w1.buf.length = w1.prevEnd + u'.length := by
         have := congrArg List.length c1
         simp only [Window.unread, List.length_drop] at this
         omega
-      have hsel : start ≤ (if (kindAt u' start == 0x22 || kindAt u' start == 0x30) = true then start else n) ∧
-          (if (kindAt u' start == 0x22 || kindAt u' start == 0x30) = true then start else n) ≤ n := by
+      have hsel : start ≤ (if span (kindAt u' start) = true then start else n) ∧
+          (if span (kindAt u' start) = true then start else n) ≤ n := by
         split <;> omega
       obtain ⟨a1, a2, a3, a4, a5, a6⟩ := advance_facts w1
-        (w1.prevEnd + (if (kindAt u' start == 0x22 || kindAt u' start == 0x30) = true then start else n)) (w1.prevEnd + n)
+        (w1.prevEnd + (if span (kindAt u' start) = true then start else n)) (w1.prevEnd + n)
         ⟨by omega, by omega, by omega⟩
       have hTu : ws.r = u' ++ avail es' := by rw [hr]; exact g1.symm
       have hst : wholeStart ws.r = start := by rw [hr]; exact t1.symm
       refine ⟨?_, ⟨?_, ?_, ?_, ?_, ?_, ?_⟩, g2⟩
-      · simp only [wholeRead, hw]
+      · simp only [wholeReadWith, hw]
         rw [hst, hoff, hTu, kindAt_append u' _ start t4]
       · simp only; rw [a4, a5]; omega
       · simp only; rw [a5, a6]; omega
       · simp only; rw [a3]; exact c3
-      · simp only [wholeRead, hw]
-      · simp only [wholeRead, hw]
+      · simp only [wholeReadWith, hw]
+      · simp only [wholeReadWith, hw]
         rw [a1, hTu, List.drop_append_of_le_length t3]
         have : w1.buf.drop (w1.prevEnd + n) = u'.drop n := by
           rw [← c1]; simp only [Window.unread, List.drop_drop]
         rw [this]
-      · simp only [wholeRead, hw]
+      · simp only [wholeReadWith, hw]
         rw [a2, hoff]; simp only [Window.inputOffset]; omega
 
-theorem readToken_events (o : VOpts) (s : SState) :
-    (readToken o s).2.events = (scanToken o s.st (Window.invalidate s.w).unread s.events).evs ∧
-    ((readToken o s).1 = .fault ↔ (scanToken o s.st (Window.invalidate s.w).unread s.events).isFault = true) := by
-  unfold readToken
+theorem readToken_sim (o : VOpts) (s : SState) (ws : WState) (h : Sim s ws) :
+    ((readToken o s).1 = .fault ∧ Sim (readToken o s).2 ws ∧ (readToken o s).2.events.length < s.events.length) ∨
+    ((readToken o s).1 = (wholeRead o ws).1 ∧ Sim (readToken o s).2 (wholeRead o ws).2 ∧
+      (readToken o s).2.events.length ≤ s.events.length) :=
+  readWith_sim (lexS o) (lexToken o) _ (fun st => lexS_ok o st) s ws h
+
+theorem readWith_events (lex : TState → Bytes → Nat → List Event → Bool → SRes) (span : UInt8 → Bool) (s : SState) :
+    (readWith lex span s).2.events = (scanWith s.st (lex s.st) (Window.invalidate s.w).unread s.events).evs ∧
+    ((readWith lex span s).1 = .fault ↔ (scanWith s.st (lex s.st) (Window.invalidate s.w).unread s.events).isFault = true) := by
+  unfold readWith
   simp only
   split
   · rename_i hx; rw [hx]; simp [SRes.evs, SRes.isFault]
   · rename_i hx; rw [hx]
     split <;> simp [SRes.evs, SRes.isFault]
 
-theorem readToken_consumed (o : VOpts) (s : SState) :
-    Consumed s.events (readToken o s).2.events (decide ((readToken o s).1 = .fault)) := by
-  have h := scanToken_consumed o s.st (Window.invalidate s.w).unread s.events
-  obtain ⟨e1, e2⟩ := readToken_events o s
+theorem readWith_consumed (lex : TState → Bytes → Nat → List Event → Bool → SRes) (span : UInt8 → Bool)
+    (hlex : ∀ st u pos es f, Consumed es (lex st u pos es f).evs (lex st u pos es f).isFault) (s : SState) :
+    Consumed s.events (readWith lex span s).2.events (decide ((readWith lex span s).1 = .fault)) := by
+  have h := scanWith_consumed s.st (lex s.st) (hlex s.st) (Window.invalidate s.w).unread s.events
+  obtain ⟨e1, e2⟩ := readWith_events lex span s
   rw [e1]
   obtain ⟨pre, hp, hf⟩ := h
   refine ⟨pre, hp, ?_⟩
   intro hd
   exact hf (e2.mp (by simpa using hd))
 
-theorem wholeRead_ne_fault (o : VOpts) (ws : WState) : (wholeRead o ws).1 ≠ .fault := by
-  unfold wholeRead; split <;> simp
+theorem readToken_consumed (o : VOpts) (s : SState) :
+    Consumed s.events (readToken o s).2.events (decide ((readToken o s).1 = .fault)) :=
+  readWith_consumed (lexS o) _ (fun st => lexS_consumed o st) s
+
+theorem wholeReadWith_ne_fault (lexW : TState → Nat → Bytes → TRes) (ws : WState) : (wholeReadWith lexW ws).1 ≠ .fault := by
+  unfold wholeReadWith; split <;> simp
+
+theorem wholeRead_ne_fault (o : VOpts) (ws : WState) : (wholeRead o ws).1 ≠ .fault :=
+  wholeReadWith_ne_fault _ ws
 
 /-- `sim_tokens`: with a reader that never faults, ANY number of ReadToken calls on the streaming decoder
 returns, call by call, what the calls return on the whole-slice decoder at the same point. -/
@@ -231,18 +250,22 @@ def SState.prevBytes (s : SState) : Bytes := (s.w.buf.drop s.w.prevStart).take (
 
 /-- what a successful streaming ReadToken did, in terms of the grown unread buffer `u'` and the window `w1` after
 the refills -/
-theorem readToken_tok_shape (o : VOpts) (s : SState) (ws : WState) (h : Sim s ws)
-    (k : UInt8) (a b : Nat) (ht : (readToken o s).1 = .tok k a b) :
+theorem readWith_tok_shape (lex : TState → Bytes → Nat → List Event → Bool → SRes) (lexW : TState → Nat → Bytes → TRes)
+    (span : UInt8 → Bool)
+    (hlex : ∀ (st : TState) (u : Bytes) (pos : Nat) (es : List Event) (f : Bool) (c : UInt8) (vt : Bytes),
+      u.drop pos = c :: vt → LexOk u pos es (lexW st pos ((c :: vt) ++ avail es)) (lex st u pos es f))
+    (s : SState) (ws : WState) (h : Sim s ws)
+    (k : UInt8) (a b : Nat) (ht : (readWith lex span s).1 = .tok k a b) :
     ∃ (start n : Nat) (u' : Bytes) (es' : List Event) (w1 : Window),
       a = ws.off + start ∧ b = ws.off + n ∧ start ≤ n ∧ n ≤ u'.length ∧ ws.r = u' ++ avail es' ∧
       w1.unread = u' ∧ w1.inputOffset = ws.off ∧ w1.prevEnd ≤ w1.buf.length ∧ k = kindAt u' start ∧
-      (readToken o s).2.w = Window.advance w1 (w1.prevEnd + (if (k == 0x22 || k == 0x30) = true then start else n)) (w1.prevEnd + n) := by
+      (readWith lex span s).2.w = Window.advance w1 (w1.prevEnd + (if span k = true then start else n)) (w1.prevEnd + n) := by
   obtain ⟨h1, h2, h3, h4, h5, h6⟩ := h
   obtain ⟨i1, i2, i3, i4, i5⟩ := invalidate_facts s.w h1 h2
-  have hscan := scanToken_ok o s.st (Window.invalidate s.w).unread s.events
-  unfold readToken at ht ⊢
+  have hscan := scanWith_ok s.st (lex s.st) (lexW s.st) (hlex s.st) (Window.invalidate s.w).unread s.events
+  unfold readWith at ht ⊢
   simp only at ht ⊢
-  cases hs : scanToken o s.st (Window.invalidate s.w).unread s.events with
+  cases hs : scanWith s.st (lex s.st) (Window.invalidate s.w).unread s.events with
   | fault u' es' => rw [hs] at ht; simp at ht
   | res r start u' es' f =>
     rw [hs] at hscan ht
@@ -267,23 +290,27 @@ theorem readToken_tok_shape (o : VOpts) (s : SState) (ws : WState) (h : Sim s ws
       · rw [hr]; exact g1.symm
       · rw [← hk]
 
-theorem readToken_span (o : VOpts) (s : SState) (ws : WState) (h : Sim s ws) (pre : Bytes) (hpre : pre.length = ws.off)
-    (k : UInt8) (a b : Nat) (ht : (readToken o s).1 = .tok k a b) :
+theorem readWith_span (lex : TState → Bytes → Nat → List Event → Bool → SRes) (lexW : TState → Nat → Bytes → TRes)
+    (span : UInt8 → Bool)
+    (hlex : ∀ (st : TState) (u : Bytes) (pos : Nat) (es : List Event) (f : Bool) (c : UInt8) (vt : Bytes),
+      u.drop pos = c :: vt → LexOk u pos es (lexW st pos ((c :: vt) ++ avail es)) (lex st u pos es f))
+    (s : SState) (ws : WState) (h : Sim s ws) (pre : Bytes) (hpre : pre.length = ws.off)
+    (k : UInt8) (a b : Nat) (ht : (readWith lex span s).1 = .tok k a b) :
     ws.off ≤ a ∧ a ≤ b ∧ b ≤ (pre ++ ws.r).length ∧
-    (readToken o s).2.w.baseOffset + (readToken o s).2.w.prevEnd = b ∧
-    ((k == 0x22 || k == 0x30) = true →
-      (readToken o s).2.w.baseOffset + (readToken o s).2.w.prevStart = a ∧
-      (readToken o s).2.prevBytes = ((pre ++ ws.r).drop a).take (b - a)) := by
-  obtain ⟨start, n, u', es', w1, ea, eb, t2, t3, hr, c1, hoff, c5, hk, hw⟩ := readToken_tok_shape o s ws h k a b ht
+    (readWith lex span s).2.w.baseOffset + (readWith lex span s).2.w.prevEnd = b ∧
+    (span k = true →
+      (readWith lex span s).2.w.baseOffset + (readWith lex span s).2.w.prevStart = a ∧
+      (readWith lex span s).2.prevBytes = ((pre ++ ws.r).drop a).take (b - a)) := by
+  obtain ⟨start, n, u', es', w1, ea, eb, t2, t3, hr, c1, hoff, c5, hk, hw⟩ := readWith_tok_shape lex lexW span hlex s ws h k a b ht
   have hbuf : w1.buf.length = w1.prevEnd + u'.length := by
     have := congrArg List.length c1
     simp only [Window.unread, List.length_drop] at this
     omega
-  have hsel : start ≤ (if (k == 0x22 || k == 0x30) = true then start else n) ∧
-      (if (k == 0x22 || k == 0x30) = true then start else n) ≤ n := by
+  have hsel : start ≤ (if span k = true then start else n) ∧
+      (if span k = true then start else n) ≤ n := by
     split <;> omega
   obtain ⟨a1, a2, a3, a4, a5, a6⟩ := advance_facts w1
-    (w1.prevEnd + (if (k == 0x22 || k == 0x30) = true then start else n)) (w1.prevEnd + n)
+    (w1.prevEnd + (if span k = true then start else n)) (w1.prevEnd + n)
     ⟨by omega, by omega, by omega⟩
   have hio : w1.baseOffset + w1.prevEnd = ws.off := hoff
   refine ⟨by omega, by omega, ?_, ?_, ?_⟩
@@ -302,5 +329,14 @@ theorem readToken_span (o : VOpts) (s : SState) (ws : WState) (h : Sim s ws) (pr
       rw [e1, e2, List.drop_append_of_le_length (by omega), List.take_append_of_le_length (by simp [List.length_drop]; omega)]
       congr 1; omega
 
+
+theorem readToken_span (o : VOpts) (s : SState) (ws : WState) (h : Sim s ws) (pre : Bytes) (hpre : pre.length = ws.off)
+    (k : UInt8) (a b : Nat) (ht : (readToken o s).1 = .tok k a b) :
+    ws.off ≤ a ∧ a ≤ b ∧ b ≤ (pre ++ ws.r).length ∧
+    (readToken o s).2.w.baseOffset + (readToken o s).2.w.prevEnd = b ∧
+    ((k == 0x22 || k == 0x30) = true →
+      (readToken o s).2.w.baseOffset + (readToken o s).2.w.prevStart = a ∧
+      (readToken o s).2.prevBytes = ((pre ++ ws.r).drop a).take (b - a)) :=
+  readWith_span (lexS o) (lexToken o) _ (fun st => lexS_ok o st) s ws h pre hpre k a b ht
 
 end JsonV.Model.Stream
